@@ -59,6 +59,53 @@ REG = {
         dict(name='c04::g1_encode_roundtrip', tier='quick', t=2400, stubbing=True),
         dict(name='c04::g2_encode_roundtrip', tier='quick', t=3600, stubbing=True, mem=24),
     ],
+    'c18': [
+        dict(name='c18::fq_sgn0_order_negation', tier='quick', t=1800, stubbing=True),
+        dict(name='c18::fq2_sgn0_order', tier='quick', t=1800, stubbing=True),
+        dict(name='c18::sgn0result_xor_table', tier='quick', t=600),
+    ],
+    'c13': [
+        dict(name='c13::xmd_m3_d3_l7', tier='quick', t=1800),
+        dict(name='c13::xmd_m0_d1_l2', tier='quick', t=1800),
+        dict(name='c13::xmd_m5_d0_l4', tier='quick', t=1800),
+        dict(name='c13::xmd_m1_d3_l0', tier='quick', t=1800),
+        dict(name='c13::xmd_m4_d2_l9', tier='thorough', t=3600),
+        dict(name='c13::xmd_m8_d8_l16', tier='thorough', t=5400, mem=24),
+        dict(name='c13::xmd_255_blocks_ok', tier='thorough', t=3600, mem=24),
+        dict(name='c13::xmd_256_blocks_abort', tier='quick', t=1800),
+        dict(name='c13::xof_m3_d3_l7', tier='quick', t=1800),
+        dict(name='c13::xof_m0_d0_l1', tier='quick', t=1800),
+        dict(name='c13::xof_m5_d2_l0', tier='thorough', t=1800),
+        dict(name='c13::xof_m2_d8_l16', tier='thorough', t=3600),
+        dict(name='c13::h2f_count0', tier='quick', t=1800),
+        dict(name='c13::h2f_count1', tier='quick', t=1800),
+        dict(name='c13::h2f_count2', tier='quick', t=1800),
+        dict(name='c13::h2f_count3', tier='thorough', t=1800),
+        dict(name='c13::fq_from_okm', tier='quick', t=2400, stubbing=True),
+        dict(name='c13::fr_from_okm', tier='quick', t=2400, stubbing=True),
+        dict(name='c13::fq2_from_ro', tier='quick', t=2400, stubbing=True),
+    ],
+    'c19': [
+        dict(name='c19::g1_affine_de_0', tier='quick', t=1800, stubbing=True),
+        dict(name='c19::g1_affine_de_47', tier='quick', t=1800, stubbing=True),
+        dict(name='c19::g1_affine_de_48', tier='quick', t=1800, stubbing=True),
+        dict(name='c19::g1_affine_de_49', tier='thorough', t=1800, stubbing=True),
+        dict(name='c19::g1_affine_de_95', tier='quick', t=1800, stubbing=True),
+        dict(name='c19::g1_affine_de_96', tier='quick', t=1800, stubbing=True),
+        dict(name='c19::g1_affine_de_97', tier='quick', t=1800, stubbing=True),
+        dict(name='c19::g2_affine_de_95', tier='quick', t=2400, stubbing=True),
+        dict(name='c19::g2_affine_de_96', tier='thorough', t=2400, stubbing=True),
+        dict(name='c19::g2_affine_de_191', tier='thorough', t=2400, stubbing=True),
+        dict(name='c19::g2_affine_de_193', tier='quick', t=3600, stubbing=True),
+        dict(name='c19::g1_projective_de_and_ser', tier='quick', t=2400, stubbing=True),
+        dict(name='c19::fr_de_0', tier='quick', t=1200, stubbing=True),
+        dict(name='c19::fr_de_31', tier='quick', t=1200, stubbing=True),
+        dict(name='c19::fr_de_32', tier='quick', t=1200, stubbing=True),
+        dict(name='c19::fr_de_33', tier='quick', t=1200, stubbing=True),
+        dict(name='c19::fq12_de_575', tier='thorough', t=3600, stubbing=True, mem=24),
+        dict(name='c19::fq12_de_576', tier='thorough', t=5400, stubbing=True, mem=24),
+        dict(name='c19::fq12_de_577', tier='quick', t=5400, stubbing=True, mem=24),
+    ],
 }
 
 SLOTS = int(os.environ.get('VERIF_KANI_JOBS', '8'))
